@@ -586,10 +586,46 @@ func c18poolLong(c *core.Ctx) {
 	c.NonTrivial(core.Mix(c.Seed, uint64(total), 18))
 }
 
+// c18poolNewField: the exported New field may be set, replaced and cleared between calls
+// (single goroutine): a Get that misses uses the New of that moment.
+func c18poolNewField(c *core.Ctx) {
+	var p sync2.Pool[*tok]
+	if g := p.Get(); g != nil {
+		c.Violate("pool:New-nil", "Get on a Pool without New returned a non-nil item", nil)
+		return
+	}
+	p.New = func() *tok { return &tok{minted: true, home: 1} }
+	a := p.Get()
+	p.New = func() *tok { return &tok{minted: true, home: 2} }
+	b := p.Get() // a is still held: this is a miss
+	if a == nil || b == nil || a.home != 1 || b.home != 2 || a == b {
+		c.Violate("pool:New-reassigned", fmt.Sprintf("New was replaced between two Get calls that both miss: the first item comes from New #%d, the second from New #%d (expected 1 and 2)", homeOf(a), homeOf(b)), nil)
+		return
+	}
+	p.New = nil
+	if g := p.Get(); g != nil {
+		c.Violate("pool:New-nil", "after New was set back to nil a Get that misses returned a non-nil item", nil)
+		return
+	}
+	c.Count("pool_new_field_scenarios", 1)
+	c.NonTrivial(core.Mix(c.Seed, 1808))
+}
+
+func homeOf(t *tok) int {
+	if t == nil {
+		return -1
+	}
+	return t.home
+}
+
 func c18pool(c *core.Ctx) {
 	r := c.R
 	if c.Index%40 == 7 {
 		c18poolLong(c)
+		return
+	}
+	if c.Index%40 == 8 {
+		c18poolNewField(c)
 		return
 	}
 	withNew := r.Chance(3, 4)
